@@ -880,3 +880,87 @@ Proof.
     + intros l. rewrite In_KL_removen, R3. split; [intros H; split; [exact H | discriminate] | tauto].
     + intros l. rewrite In_KL_removen, R4. split; [intros H; split; [exact H | discriminate] | tauto].
 Qed.
+
+(* ------------------------------------------------------------------------------------------ *)
+(* Inv without the "undeclared has no creator" part, for the middle of Trellis.create          *)
+(* ------------------------------------------------------------------------------------------ *)
+Record InvU (s : st) : Prop := {
+  iu_nw : NWl (nodes s);
+  iu_rw : RWl (nodes s) (files s) (steps s) (shash s) (envs s);
+  iu_dw : DWl (nodes s) (deps s);
+  iu_ac : acyclic (EL (deps s));
+  iu_fh : FHl (files s);
+  iu_sw : SWl (steps s) }.
+
+Lemma Inv_InvU s : Inv s -> InvU s.
+Proof. intros [I1 I2 I3 I4 I5 I6 I7]. constructor; assumption. Qed.
+Lemma InvU_Inv s : InvU s -> UDl (nodes s) (files s) -> Inv s.
+Proof. intros [I1 I2 I3 I4 I6 I7] I5. constructor; assumption. Qed.
+
+Lemma InvU_SO s s' :
+  InvU s -> SO s s' -> FHl (files s') -> SWl (steps s') ->
+  NoDup (shash s') -> incl (shash s') (SL (steps s)) -> InvU s'.
+Proof.
+  intros [I1 I2 I3 I4 I6 I7] [E1 E2 E3 E4 E5 E6] HF HS Hh1 Hh2.
+  constructor; rewrite ?E1, ?E2, ?E3; try assumption.
+  destruct I2 as [H1 H2 H3 H4 H5 H6 H7]. constructor; rewrite ?E4, ?E5; assumption.
+Qed.
+
+Definition others (l : str) (fs : list frow) : list frow := filter (fun r => negb (str_eqb (fl r) l)) fs.
+
+Lemma set_fstate_hash_gen strict l new newh s :
+  InvU s -> UDl (nodes s) (others l (files s)) ->
+  (new = FUndeclared -> forall n, findn (KFile, l) (nodes s) = Some n -> ncre n = None /\ ndet n = true) ->
+  (strict = true -> needs_hash new = true ->
+     match newh with
+     | Some h => h <> None
+     | None => forall r, find_file l s = Some r -> fh r <> None
+     end) ->
+  wpg strict (set_fstate_hash l new newh s)
+      (fun s' => (find_file l s <> None -> Inv s') /\ SO s s' /\ steps s' = steps s /\ shash s' = shash s /\
+                 (forall l', l' <> l -> find_file l' s' = find_file l' s) /\
+                 (find_file l s <> None -> fstate_of l s' = Some new) /\
+                 (find_file l s = None -> s' = s)).
+Proof.
+  intros HI HUo Hnew Hstrict. unfold set_fstate_hash.
+  destruct (find_file l s) as [r|] eqn:Hf.
+  2:{ cbn. split; [intros H; congruence|]. split; [apply SO_refl|]. split; [reflexivity|]. split; [reflexivity|].
+      split; [reflexivity|]. split; [intros H; congruence | reflexivity]. }
+  set (h1 := match newh with Some h => h | None => fh r end).
+  destruct (needs_hash new && match h1 with None => true | Some _ => false end) eqn:Echk.
+  { destruct strict; [|exact I]. cbn. apply andb_true_iff in Echk. destruct Echk as [E1 E2].
+    specialize (Hstrict eq_refl E1). unfold h1 in E2. destruct newh as [h|].
+    - destruct h; [discriminate | congruence].
+    - specialize (Hstrict r eq_refl). destruct (fh r); [discriminate | congruence]. }
+  assert (Eund : fstate_eqb new FUndeclared && negb (is_detached (KFile, l) s) = false).
+  { destruct (fstate_eqb new FUndeclared) eqn:E; [|reflexivity]. apply fstate_eqb_eq in E. cbn.
+    rewrite is_detached_findn. destruct (findn (KFile, l) (nodes s)) as [n|] eqn:Hn; [|reflexivity].
+    destruct (Hnew E n eq_refl) as [_ Hd]. rewrite Hd. reflexivity. }
+  rewrite Eund. cbn [wpg].
+  set (h2 := if clears_hash (fstt r) new then None else h1).
+  set (g := fun r0 : frow => mkF (fl r0) new h2).
+  assert (Hg : forall r0, fl (g r0) = fl r0) by reflexivity.
+  assert (HSO : SO s (upd_file l g s)).
+  { constructor; try reflexivity. rewrite files_upd_file. apply FL_updf. exact Hg. }
+  assert (Hrow : fh_ok_b (mkF (fl r) new h2) = true).
+  { unfold fh_ok_b. cbn [fstt fh]. unfold h2.
+    destruct new; cbn in *; try reflexivity; try congruence;
+      try (destruct h1; [reflexivity | discriminate]). }
+  split; [|split; [exact HSO|]].
+  - intros _. apply InvU_Inv.
+    + apply (InvU_SO s); [exact HI | exact HSO | | apply (iu_sw _ HI) | apply (rw_hnodup _ _ _ _ _ (iu_rw _ HI))
+                        | apply (rw_hstep _ _ _ _ _ (iu_rw _ HI))].
+      intros r' Hr'. rewrite files_upd_file in Hr'. apply In_updf in Hr'.
+      destruct Hr' as [r0 [Hr0 [[Hl ->]|[Hl ->]]]]; [|apply (iu_fh _ HI); exact Hr0].
+      unfold g. unfold fh_ok_b. cbn [fstt fh]. unfold fh_ok_b in Hrow. cbn [fstt fh] in Hrow. exact Hrow.
+    + intros r' Hr' Hst. cbn [nodes upd_file set_files]. rewrite files_upd_file in Hr'. apply In_updf in Hr'.
+      destruct Hr' as [r0 [Hr0 [[Hl ->]|[Hl ->]]]].
+      * cbn in Hst. cbn [fl g]. rewrite Hl. intros n Hn. apply (Hnew Hst n Hn).
+      * apply HUo; [|exact Hst]. apply filter_In. split; [exact Hr0|]. apply negb_true_iff. apply str_eqb_neq. exact Hl.
+  - repeat split; try reflexivity.
+    + intros l' Hl'. unfold find_file. rewrite files_upd_file. fold (findf l' (updf l g (files s))).
+      rewrite findf_updf; [|exact Hg]. apply str_eqb_neq in Hl'. rewrite Hl'. reflexivity.
+    + intros _. rewrite fstate_of_findf, files_upd_file, findf_updf; [|exact Hg].
+      rewrite str_eqb_refl. unfold find_file in Hf. fold (findf l (files s)) in Hf. rewrite Hf. reflexivity.
+    + intros H; discriminate.
+Qed.
